@@ -148,7 +148,7 @@ class Problem:
 
     def __init__(self, kind, lo, hi, pdim, boxes, res, starts, goal, thr, planner, seed, budget, pollcap,
                  rng=None, interm=None, bias=None, mode="run", trace=0, tag="random", rho=1.0, costthr=None, oneway=None,
-                 hist=None, goals2=None):
+                 hist=None, goals2=None, blind=0, calls=None):
         self.kind, self.lo, self.hi, self.pdim, self.boxes = kind, list(lo), list(hi), pdim, [tuple(b) for b in boxes]
         self.res, self.starts, self.goal, self.thr = res, [list(s) for s in starts], list(goal), thr
         self.planner, self.seed, self.budget, self.pollcap = planner, seed, budget, pollcap
@@ -157,16 +157,26 @@ class Problem:
         self.oneway = oneway        # (lo0, lo1, hi0, hi1): motions in -x direction touching this box are invalid
         self.hist = list(hist) if hist else None    # mode history: the calls made on one RRT object (harness tokens)
         self.goals2 = [list(g) for g in goals2] if goals2 else []   # further goal states: the goal is a GoalStates
+        self.blind = blind      # 1: the user's validity checker does collision checking only (no satisfiesBounds call)
+        # mode run: calls made on the SAME planner object / problem definition before the judged solve (resume histories):
+        # solve:<budget> | clear | clearsol | opendoor (the last box disappears)
+        self.calls = list(calls) if calls else []
 
     def clone(self, **kw):
         d = dict(kind=self.kind, lo=self.lo, hi=self.hi, pdim=self.pdim, boxes=self.boxes, res=self.res, starts=self.starts,
                  goal=self.goal, thr=self.thr, planner=self.planner, seed=self.seed, budget=self.budget,
                  pollcap=self.pollcap, rng=self.rng, interm=self.interm, bias=self.bias, mode=self.mode, trace=self.trace,
-                 tag=self.tag, rho=self.rho, costthr=self.costthr, oneway=self.oneway, hist=self.hist, goals2=self.goals2)
+                 tag=self.tag, rho=self.rho, costthr=self.costthr, oneway=self.oneway, hist=self.hist, goals2=self.goals2, blind=self.blind, calls=self.calls)
         d.update(kw)
         return Problem(**d)
 
     # ---- geometry of the space, recomputed here (independent of OMPL)
+    def env_at(self, k=None):
+        """the problem with the boxes in force at call k of `calls` (None: at the final, judged solve)"""
+        ops = self.calls if k is None else self.calls[:k]
+        n = sum(1 for t in ops if t == "opendoor")
+        return self if n == 0 else self.clone(boxes=self.boxes[:max(0, len(self.boxes) - n)])
+
     def all_goals(self):
         return [self.goal] + self.goals2
 
@@ -283,6 +293,10 @@ class Problem:
             L.append("oneway " + " ".join(map(f2b, self.oneway)))
         if self.hist:
             L.append("hist " + " ".join(self.hist))
+        if self.blind:
+            L.append("boundsblind 1")
+        if self.calls:
+            L.append("calls " + " ".join(self.calls))
         L += ["seed %d" % self.seed, "budget %d %d" % (self.budget, self.pollcap), "mode " + self.mode,
               "trace %d" % self.trace, "watchdog %d" % WATCHDOG[0], "go"]
         return L
@@ -471,6 +485,53 @@ def gen_multigoal(r, kind=None):
     return env
 
 
+def gen_resume(r, kind, variant):
+    """resume histories for EVERY planner: unit box, a wall at x in [0.45, 0.55] with one doorway; the LAST box is a plug
+    that seals the doorway (the goal is then unreachable: planners that report approximate solutions return
+    APPROXIMATE_SOLUTION).  The same planner object and problem definition then go through further solve() calls:
+      sealed      solve (sealed) ; solve (still sealed)               - must stay approximate, never turn exact
+      opened      solve (sealed) ; opendoor ; solve                    - approximate first, then possibly exact
+      exact       solve (open, big budget) ; [clearsol] ; solve        - solve -> exact -> resume
+      short       solve (open, tiny budget) ; solve ; solve            - approximate / exact in any order
+      cleared     solve (sealed) ; clear ; opendoor ; solve            - clear() in between: a fresh start
+    Every call's report goes through path_is_real (status / flag / difference agree with the last state, ...)."""
+    d = 3 if kind == "rv3" else 2
+    k = "se2" if kind == "se2" else "rv"
+    lo, hi = [0.0] * d, [1.0] * d
+    c = r.uniform(0.25, 0.75)
+    w = r.uniform(0.06, 0.1)
+    boxes = [([0.45, -0.1], [0.55, c - w]), ([0.45, c + w], [0.55, 1.1])]
+    plug = ([0.45, c - w - 0.001], [0.55, c + w + 0.001])
+    sealed = variant in ("sealed", "opened", "cleared")
+    p = Problem(k, lo, hi, 2, boxes + ([plug] if sealed else []), r.choice([0.01, 0.015, 0.02]), [], [], 0.0, "RRT", 0, 0, 0)
+
+    def pick(x0, x1):
+        for _ in range(200):
+            s = rand_state(r, k, [x0] + lo[1:], [x1] + hi[1:])
+            if p.valid(s):
+                return s
+        return rand_state(r, k, [x0] + lo[1:], [x1] + hi[1:])
+    p.starts = [pick(0.05, 0.38)]
+    p.goal = pick(0.62, 0.95)
+    p.thr = r.choice([0.02, 0.04])
+    b1 = r.choice([300, 1200])
+    if variant == "sealed":
+        p.calls = ["solve:%d" % b1] + (["solve:%d" % r.choice([200, 800])] if r.below(3) == 0 else [])
+    elif variant == "opened":
+        p.calls = ["solve:%d" % b1, "opendoor"]
+    elif variant == "exact":
+        p.calls = ["solve:%d" % r.choice([4000, 8000])] + (["clearsol"] if r.below(3) == 0 else [])
+    elif variant == "short":
+        p.calls = ["solve:%d" % r.choice([60, 200]), "solve:%d" % r.choice([200, 1500])]
+    else:
+        p.calls = ["solve:%d" % b1, "clear", "opendoor"]
+    p.tag = "resume:" + variant
+    return p
+
+
+RESUME_VARIANTS = ["sealed", "opened", "exact", "short", "cleared"]
+
+
 THREE_ARG = {"KPIECE1", "BKPIECE1", "LBKPIECE1", "PDST", "RLRT", "BiRLRT", "STRIDE"}
 # evaluation budgets of the short-motion class (tiny range => many nodes; these planners get slow with many nodes)
 SHORT_BUDGET = {"LBTRRT": 4000, "LazyPRM": 8000, "LazyPRMstar": 8000, "LazyLBTRRT": 8000}
@@ -630,6 +691,7 @@ def parse_run(lines):
             d = kv(t[2:])
             R["sols"].append({"approx": d["approx"] == "1", "diff": b2f(d["diff"]), "n": int(d["n"]), "start": int(d["start"]),
                               "gdist": b2f(d["gdist"]), "gsat": d["gsat"] == "1", "planner": d.get("planner"),
+                              "index": int(d.get("index", "0")),
                               "states": [], "inb": [], "edges": {}, "dense": {}})
         elif k == "st":
             s = R["sols"][int(t[1])]
@@ -689,7 +751,23 @@ def run_problem(ck, hbin, p, timeout=300):
         raise RuntimeError("harness could not be started (shared library unavailable): %s" % (err or "")[-300:])
     if out is None:
         return {"timeout": True, "rc": rc, "sols": [], "done": False, "stderr": ""}
-    R = parse_run(out)
+    calls, rest, cur = [], [], None
+    for ln in out:
+        if ln.startswith("call ") and ln.endswith(" begin"):
+            cur = (int(ln.split()[1]), [])
+        elif ln.startswith("call ") and ln.endswith(" end") and cur is not None:
+            Rk = parse_run(cur[1])
+            Rk["done"], Rk["rc"], Rk["stderr"] = True, 0, ""
+            calls.append((cur[0], Rk))
+            cur = None
+        elif cur is not None:
+            cur[1].append(ln)
+        else:
+            rest.append(ln)
+    if cur is not None:
+        rest += cur[1]          # the process died inside this call: its lines belong to the (crashed) remainder
+    R = parse_run(rest)
+    R["calls"] = calls
     if rc == -14:
         R["timeout"] = True
     R["rc"], R["stderr"] = rc, (err or "")[-1500:]
@@ -924,6 +1002,34 @@ def path_is_real(p, R):
     if not solved:
         if added != 0:
             fails.append(("nonsolution-adds-path", "status %s but the solution count went from %d to %d" % (status, R["before"], R["after"])))
+        if R["before"] > 0:
+            # a resumed call: what earlier calls registered is still in the problem definition and must still be real
+            for i, sol in enumerate(R["sols"]):
+                check_solution(p, R, sol, i == 0, fails, obs)
+        return fails, obs
+    if R["before"] > 0:
+        # a RESUMED call (same planner object, problem definition still holding earlier solutions): the status speaks about
+        # what THIS call reports, i.e. the solutions it registered (index >= before); the problem definition's top solution
+        # may stem from an earlier call.  Every solution shown is judged as usual (goal / flag / difference / validity).
+        obs["resumed-call"] = 1
+        new = [x for x in R["sols"] if not x.get("bad") and x.get("index", 0) >= R["before"]]
+        if added <= 0:
+            obs["resumed-call:solution-status-without-a-new-path"] = 1
+            if not R["sols"]:
+                fails.append(("no-path", "status %s but the problem definition holds no solution" % status))
+            elif status == "EXACT_SOLUTION" and all(x.get("approx") for x in R["sols"] if not x.get("bad")):
+                fails.append(("status-flags", "resumed call: status EXACT_SOLUTION, nothing registered, and the problem definition holds only approximate solutions"))
+        elif new:
+            if status == "EXACT_SOLUTION" and all(x["approx"] for x in new):
+                fails.append(("status-flags", "resumed call: status EXACT_SOLUTION but every solution this call registered is flagged approximate"))
+            if status == "APPROXIMATE_SOLUTION" and any(not x["approx"] for x in new):
+                fails.append(("status-flags", "resumed call: status APPROXIMATE_SOLUTION but this call registered a solution not flagged approximate"))
+        top = R["sols"][0] if R["sols"] else None
+        if top is not None and not top.get("bad"):
+            if R["pd_approx"] != top["approx"] or not (R["pd_diff"] == top["diff"] or (math.isnan(R["pd_diff"]) and math.isnan(top["diff"]))):
+                fails.append(("status-flags", "hasApproximateSolution/getSolutionDifference disagree with the top solution"))
+        for i, sol in enumerate(R["sols"]):
+            check_solution(p, R, sol, i == 0, fails, obs)
         return fails, obs
     if added <= 0 or not R["sols"]:
         fails.append(("no-path", "status %s but no solution path was added (count %d -> %d)" % (status, R["before"], R["after"])))
@@ -948,6 +1054,8 @@ def driver_script(p, R):
     if p.rng is not None:
         d.append("range " + f2b(p.rng))
     d.append("interm %d" % (p.interm or 0))
+    if p.blind:
+        d.append("boundsblind 1")
     d += ["goal " + " ".join(map(f2b, g)) for g in p.all_goals()]
     d.append("thr " + f2b(p.thr))
     for s in p.starts:
@@ -1333,7 +1441,22 @@ def judge(ck, hbin, p, R=None, attack=True):
     """run one problem through the oracle; report failures.  returns True if fine."""
     if R is None:
         R = run_problem(ck, hbin, p)
-    fails, obs = path_is_real(p, R)
+    if p.calls:
+        # resume history: every call's report is judged with the environment then in force; the clause names of the
+        # earlier calls carry the call number
+        pf = p.env_at(None)
+        fails, obs = path_is_real(pf, R)
+        for k, Rk in R.get("calls", []):
+            fk, ok_ = path_is_real(p.env_at(k), Rk)
+            fails += [("%s" % f[0], "call %d (%s): %s" % (k, p.calls[k], f[1])) + tuple(f[2:]) for f in fk]
+            for key, v in ok_.items():
+                if not key.startswith("max-"):
+                    obs[key] = obs.get(key, 0) + (v if isinstance(v, int) else 1)
+            ck.count("resume:call-status:" + str(Rk.get("status")))
+        ck.count("resume:calls-judged", len(R.get("calls", [])) + 1)
+        attack = False
+    else:
+        fails, obs = path_is_real(p, R)
     ck.traces_validated += 1
     status = R.get("status", "exception" if R.get("exception") else ("n/a" if R.get("na") else "crash"))
     if R.get("timeout"):
@@ -1473,6 +1596,10 @@ def problem_from_script(lines):
             kw["oneway"] = [b2f(x) for x in t[1:5]]
         elif t[0] == "hist":
             kw["hist"] = t[1:]
+        elif t[0] == "boundsblind":
+            kw["blind"] = int(t[1])
+        elif t[0] == "calls":
+            kw["calls"] = t[1:]
         elif t[0] == "seed":
             kw["seed"] = int(t[1])
         elif t[0] == "budget":
@@ -1598,6 +1725,12 @@ def plan_quick(ck, names):
             for budget in (r.choice([150, 400]), r.choice([4000, 8000])):
                 jobs.append(env.clone(planner=name, seed=r.below(1000), budget=budget, pollcap=pollcap_for(name, budget),
                                       tag="random", interm=(1 if name in ("RRT", "RRTConnect") and e == 1 else None)))
+        rr = ck.rng.fork("resume:" + name)
+        for vi, variant in enumerate(RESUME_VARIANTS[:4]):
+            kind = "rv3" if name in MULTILEVEL else ["rv2", "rv2", "rv3", "se2"][(pi + vi + ck.seed) % 4]
+            rs = gen_resume(rr, kind, variant if not (variant == "short" and (pi + ck.seed) % 2) else "cleared")
+            budget = rr.choice([1500, 5000])
+            jobs.append(rs.clone(planner=name, seed=rr.below(100000), budget=budget, pollcap=pollcap_for(name, budget)))
         if name in MULTILEVEL:
             continue
         for wall in ("thin", "thick"):
@@ -1624,7 +1757,7 @@ def plan_quick(ck, names):
                                   pollcap=pollcap_for(name, budget, which)))
         if name not in EXTRA:
             rg = ck.rng.fork("mg:" + name)
-            for k in range(2):
+            for k in range(1):
                 mg = gen_multigoal(rg)
                 budget = rg.choice([600, 4000])
                 jobs.append(mg.clone(planner=name, seed=rg.below(100000), budget=budget, pollcap=pollcap_for(name, budget)))
@@ -1668,6 +1801,12 @@ def plan_thorough(ck, names):
                 budget = 600 if which == "goal-in-obstacle" else r.choice([500, 5000])
                 jobs.append(adv.clone(planner=name, seed=r.below(100000), budget=budget,
                                       pollcap=pollcap_for(name, budget, which)))
+        rr = ck.rng.fork("resume:" + name)
+        for k in range(25):
+            kind = "rv3" if name in MULTILEVEL else ["rv2", "rv2", "rv3", "se2"][k % 4]
+            rs = gen_resume(rr, kind, RESUME_VARIANTS[k % 5])
+            budget = rr.choice([1500, 5000, 10000])
+            jobs.append(rs.clone(planner=name, seed=rr.below(100000), budget=budget, pollcap=pollcap_for(name, budget)))
         if name not in EXTRA and name not in MULTILEVEL:
             rg = ck.rng.fork("mg:" + name)
             for k in range(10):
